@@ -76,7 +76,8 @@ def gen_regimen(rng, t_max):
             last_end = s + d
         return kind, dict(dose=p), ev
     period = float(rng.uniform(max(duration * 1.2, 0.3), 1.6))
-    num = None if kind == 'indefinite' else int(rng.integers(1, 5))
+    # (the number of doses is any count, including 0 = no dose at all)
+    num = None if kind == 'indefinite' else int(rng.integers(0, 5))
     ev = R.events(dose, start, duration, period, num, t_max + 10 * period)
     return kind, dict(dose=dose, start=start, duration=duration,
                       period=period, num=num), ev
@@ -215,10 +216,12 @@ def cumulative_case(ctx, rng, idx):
                       e.period(), e.multiplier()) for e in rep.events())
         if kind in ('single', 'protocol'):
             want = sorted((s, d, a, 0, 0) for s, d, a in ev)
+        elif kw['num'] == 0:
+            want = []
         else:
             want = [(kw['start'], kw['duration'], kw['dose'], kw['period'],
                      kw['num'] or 0)]
-        if not np.allclose(np.array(got, dtype=float),
+        if len(got) != len(want) or not np.allclose(np.array(got, dtype=float),
                            np.array(want, dtype=float), rtol=1e-12):
             ctx.violation('reported_regimen', 'reported_regimen_mismatch',
                           {'reported': got, 'expected': want}, feats)
